@@ -570,6 +570,36 @@ fn run_inner(sc: &J) -> Result<Option<String>, String> {
             }
             Ok(None)
         }
+        // C07: the leaf matrix — every value kind (with boundary payloads) against every leaf schema: whatever validation accepts
+        // the writers must write and the bytes must decode to the value's canonical form; whatever it rejects must not be written.
+        // (The pair Bytes under decimal is the recorded known finding D8e and is skipped.)
+        "validate_write_matrix" => {
+            let schemas = ["\"null\"", "\"boolean\"", "\"int\"", "\"long\"", "\"float\"", "\"double\"", "\"bytes\"", "\"string\"",
+                "{\"type\":\"fixed\",\"name\":\"f4\",\"size\":4}", "{\"type\":\"enum\",\"name\":\"e\",\"symbols\":[\"a\",\"b\"]}",
+                "{\"type\":\"int\",\"logicalType\":\"date\"}", "{\"type\":\"int\",\"logicalType\":\"time-millis\"}", "{\"type\":\"long\",\"logicalType\":\"time-micros\"}",
+                "{\"type\":\"long\",\"logicalType\":\"timestamp-millis\"}", "{\"type\":\"long\",\"logicalType\":\"timestamp-micros\"}", "{\"type\":\"long\",\"logicalType\":\"timestamp-nanos\"}",
+                "{\"type\":\"long\",\"logicalType\":\"local-timestamp-millis\"}", "{\"type\":\"long\",\"logicalType\":\"local-timestamp-micros\"}", "{\"type\":\"long\",\"logicalType\":\"local-timestamp-nanos\"}",
+                "{\"type\":\"fixed\",\"name\":\"d12\",\"size\":12,\"logicalType\":\"duration\"}", "{\"type\":\"string\",\"logicalType\":\"uuid\"}",
+                "{\"type\":\"fixed\",\"name\":\"u16\",\"size\":16,\"logicalType\":\"uuid\"}", "{\"type\":\"bytes\",\"logicalType\":\"decimal\",\"precision\":20,\"scale\":2}",
+                "{\"type\":\"fixed\",\"name\":\"df\",\"size\":8,\"logicalType\":\"decimal\",\"precision\":10,\"scale\":2}"];
+            let big = i32::MAX as i64 + 1;
+            let values: Vec<Value> = vec![Value::Null, Value::Boolean(true), Value::Int(0), Value::Int(i32::MAX), Value::Int(i32::MIN), Value::Long(0), Value::Long(big), Value::Long(i64::MIN), Value::Long(5_000_000_000),
+                Value::Float(1.5), Value::Double(-2.5), Value::Bytes(vec![1, 2, 3, 4]), Value::Bytes(vec![]), Value::String("a".into()), Value::String("zz".into()), Value::String("b2f1cf00-0434-013e-439a-125eb8485a5f".into()),
+                Value::Fixed(4, vec![9, 8, 7, 6]), Value::Fixed(12, vec![1; 12]), Value::Fixed(16, vec![2; 16]), Value::Fixed(8, vec![0xFF; 8]), Value::Enum(1, "b".into()), Value::Enum(5, "zz".into()),
+                Value::Date(1), Value::TimeMillis(2), Value::TimeMicros(big), Value::TimestampMillis(big), Value::TimestampMicros(big), Value::TimestampNanos(big),
+                Value::LocalTimestampMillis(big), Value::LocalTimestampMicros(big), Value::LocalTimestampNanos(big),
+                Value::Duration(apache_avro::Duration::new(apache_avro::Months::new(1), apache_avro::Days::new(2), apache_avro::Millis::new(3))),
+                Value::Uuid(apache_avro::Uuid::from_u128(7)), Value::Decimal(apache_avro::Decimal::from(vec![0x01, 0x02]))];
+            for st in schemas {
+                let schema = Schema::parse_str(st).map_err(|e| format!("{st}: {e}"))?;
+                for v in &values {
+                    if matches!(v, Value::Bytes(_)) && st.contains("decimal") { continue; }       // known finding D8e
+                    if matches!(v, Value::Fixed(..)) && st.contains("decimal") { continue; }       // known finding D8f
+                    if let Some(m) = validate_write_check(&schema, v)? { return Ok(Some(format!("schema {st}, value {v:?}: {m}"))); }
+                }
+            }
+            Ok(None)
+        }
         // C19: (fresh process) the allocation limit is frozen by its first use: decode something, then try to set it
         "limit_frozen_by_first_use" => {
             let schema = Schema::parse_str("\"bytes\"").map_err(|e| e.to_string())?;
@@ -770,6 +800,27 @@ fn run_inner(sc: &J) -> Result<Option<String>, String> {
                 Err(e) => Ok(Some(format!("reading failed ({e}) where the rules prescribe {want:?}"))),
             }
         }
+        // C08: the CONTAINER reader with a reader schema gives what the resolution rules prescribe (same expectation format as
+        // read_with_reader_schema; the container decides by itself whether it has to resolve at all)
+        "container_reader_schema" => {
+            let ws = Schema::parse_str(sc["writer"].as_str().ok_or("writer")?).map_err(|e| e.to_string())?;
+            let rs = Schema::parse_str(sc["reader"].as_str().ok_or("reader")?).map_err(|e| e.to_string())?;
+            let bytes = jhex(sc, "datum");
+            let v = apache_avro::from_avro_datum(&ws, &mut &bytes[..], None).map_err(|e| e.to_string())?;
+            let mut w = apache_avro::Writer::new(&ws, Vec::new()).map_err(|e| e.to_string())?;
+            w.append_value_ref(&v).map_err(|e| e.to_string())?;
+            let file = w.into_inner().map_err(|e| e.to_string())?;
+            let rd = apache_avro::Reader::builder(&file[..]).reader_schema(&rs).build().map_err(|e| e.to_string())?;
+            let got: Vec<_> = rd.collect();
+            if sc["expect"].as_str() == Some("error") {
+                return Ok(if got.iter().any(|r| r.is_err()) { None } else { Some(format!("the resolution rules give no result here, but the container reader returned {got:?}")) });
+            }
+            let want = crate::dsl(&sc["expect"])?;
+            match &got[..] {
+                [Ok(x)] if *x == want => if x.validate(&rs) { Ok(None) } else { Ok(Some(format!("result {x:?} does not validate against the reader schema"))) },
+                other => Ok(Some(format!("container reader returned {other:?}, the resolution rules prescribe {want:?}"))),
+            }
+        }
         // C04: a spec-conforming file may contain a block with object count 0; the values of later blocks must still be read
         "container_empty_block" => {
             let schema = Schema::parse_str("\"long\"").map_err(|e| e.to_string())?;
@@ -891,6 +942,52 @@ fn run_inner(sc: &J) -> Result<Option<String>, String> {
                 match rdr.read_value(&mut rd) {
                     Ok(v) if v == want => { used += p.len(); if all.len() - rd.len() != used { return Ok(Some(format!("after datum {i} the reader has consumed {} bytes, the datums so far are {used} bytes long", all.len() - rd.len()))); } }
                     other => return Ok(Some(format!("datum {i} of {} read back as {other:?}", parts.len()))),
+                }
+            }
+            Ok(None)
+        }
+        // C01/C18: EVERY reading route consumes exactly one message from the caller's reader, so messages written back to back are
+        // read one after another: datum reader (read_value, read_deser), single-object readers (generic read_value/read_deser,
+        // typed read / read_from_value); streams shorter and longer than any internal buffer (8 KiB)
+        "stream_of_messages" => {
+            #[derive(serde::Serialize, serde::Deserialize, PartialEq, Debug, Clone)]
+            struct Pt { x: i64, y: String }
+            impl apache_avro::AvroSchema for Pt {
+                fn get_schema() -> Schema { Schema::parse_str("{\"type\":\"record\",\"name\":\"Pt\",\"fields\":[{\"name\":\"x\",\"type\":\"long\"},{\"name\":\"y\",\"type\":\"string\"}]}").unwrap() }
+            }
+            impl From<Pt> for Value { fn from(p: Pt) -> Value { Value::Record(vec![("x".into(), Value::Long(p.x)), ("y".into(), Value::String(p.y))]) } }
+            impl From<Value> for Pt { fn from(v: Value) -> Pt { match v { Value::Record(f) => { let x = match &f[0].1 { Value::Long(n) => *n, _ => 0 }; let y = match &f[1].1 { Value::String(s) => s.clone(), _ => String::new() }; Pt { x, y } }, _ => Pt { x: 0, y: String::new() } } } }
+            let schema = <Pt as apache_avro::AvroSchema>::get_schema();
+            for (count, ylen) in [(3usize, 5usize), (40, 300), (3, 9000)] {
+                let pts: Vec<Pt> = (0..count).map(|i| Pt { x: i as i64 * 1000 - 7, y: "q".repeat(ylen + i) }).collect();
+                // --- plain datums back to back
+                let mut stream = Vec::new();
+                for p in &pts { stream.extend(apache_avro::to_avro_datum(&schema, Value::from(p.clone())).map_err(|e| e.to_string())?); }
+                let dr = apache_avro::reader::datum::GenericDatumReader::builder(&schema).build().map_err(|e| e.to_string())?;
+                let mut rd = &stream[..];
+                for (i, p) in pts.iter().enumerate() { match dr.read_value(&mut rd) { Ok(v) if v == Value::from(p.clone()) => {}, other => return Ok(Some(format!("GenericDatumReader::read_value: datum {i} of {count} (strings of ~{ylen} bytes) in one stream reads as {:?}", other.map(|_| "another value").map_err(|e| e.to_string())))) } }
+                if !rd.is_empty() { return Ok(Some(format!("GenericDatumReader::read_value left {} bytes", rd.len()))); }
+                let mut rd = &stream[..];
+                for (i, p) in pts.iter().enumerate() { match dr.read_deser::<Pt>(&mut rd) { Ok(v) if v == *p => {}, other => return Ok(Some(format!("GenericDatumReader::read_deser: datum {i} of {count} (strings of ~{ylen} bytes) in one stream reads as {:?}", other.map(|_| "another value").map_err(|e| e.to_string())))) } }
+                if !rd.is_empty() { return Ok(Some(format!("GenericDatumReader::read_deser left {} bytes", rd.len()))); }
+                // --- single-object messages back to back
+                let sw = apache_avro::SpecificSingleObjectWriter::<Pt>::new().map_err(|e| e.to_string())?;
+                let mut stream = Vec::new();
+                for p in &pts { sw.write_value(p.clone(), &mut stream).map_err(|e| e.to_string())?; }
+                let gr = apache_avro::GenericSingleObjectReader::builder().schema(schema.clone()).build().map_err(|e| e.to_string())?;
+                let sr = apache_avro::SpecificSingleObjectReader::<Pt>::new().map_err(|e| e.to_string())?;
+                for route in ["generic.read_value", "generic.read_deser", "specific.read", "specific.read_from_value"] {
+                    let mut rd = &stream[..];
+                    for (i, p) in pts.iter().enumerate() {
+                        let got: Result<Pt, String> = match route {
+                            "generic.read_value" => gr.read_value(&mut rd).map(Pt::from).map_err(|e| e.to_string()),
+                            "generic.read_deser" => gr.read_deser::<Pt>(&mut rd).map_err(|e| e.to_string()),
+                            "specific.read" => sr.read(&mut rd).map_err(|e| e.to_string()),
+                            _ => sr.read_from_value(&mut rd).map_err(|e| e.to_string()),
+                        };
+                        match got { Ok(v) if v == *p => {}, other => return Ok(Some(format!("single-object {route}: message {i} of {count} (strings of ~{ylen} bytes) in one stream reads as {:?}", other.map(|_| "another value")))) }
+                    }
+                    if !rd.is_empty() { return Ok(Some(format!("single-object {route} left {} bytes after the last message", rd.len()))); }
                 }
             }
             Ok(None)
@@ -1253,6 +1350,17 @@ fn value_ill_formed(v: &Value) -> Option<String> {
 }
 
 pub fn parse_codec(name: &str) -> apache_avro::Codec {
+    // "<codec>:<level>" selects a compression level
+    if let Some((c, l)) = name.split_once(':') {
+        let l: u8 = l.parse().unwrap_or(0);
+        return match c {
+            "zstandard" => apache_avro::Codec::Zstandard(apache_avro::ZstandardSettings::new(l)),
+            "bzip2" => apache_avro::Codec::Bzip2(apache_avro::Bzip2Settings::new(l)),
+            "xz" => apache_avro::Codec::Xz(apache_avro::XzSettings::new(l)),
+            "deflate" => apache_avro::Codec::Deflate(apache_avro::DeflateSettings::new(match l { 0 => miniz_oxide::deflate::CompressionLevel::NoCompression, 1 => miniz_oxide::deflate::CompressionLevel::BestSpeed, 9 => miniz_oxide::deflate::CompressionLevel::BestCompression, 10 => miniz_oxide::deflate::CompressionLevel::UberCompression, _ => miniz_oxide::deflate::CompressionLevel::DefaultLevel })),
+            _ => apache_avro::Codec::Null,
+        };
+    }
     match name {
         "deflate" => apache_avro::Codec::Deflate(Default::default()),
         "snappy" => apache_avro::Codec::Snappy,
